@@ -131,10 +131,41 @@ func (p *pathRun) absTerm(t *smt.Term) *smt.Term {
 	if p.nonneg[t] {
 		return t
 	}
-	if t.Op == "app" && (t.Name == "pow" || t.Name == "gcd" || len(t.Name) > 2 && (t.Name[:2] == "X_" || t.Name[:2] == "Y_")) {
+	if p.structNonNeg(t, 0) {
 		return t
 	}
 	return p.ctx.Abs(t)
+}
+
+// structNonNeg: t is non-negative by its syntactic structure (sums and products of
+// non-negative terms, residues of positive constant moduli, ...).
+func (p *pathRun) structNonNeg(t *smt.Term, depth int) bool {
+	if p.nonneg[t] {
+		return true
+	}
+	if depth > 6 {
+		return false
+	}
+	switch t.Op {
+	case "const":
+		return t.Sort == smt.Int && t.Val.Sign() >= 0
+	case "abs":
+		return true
+	case "mod":
+		return t.Args[1].IsConst() && t.Args[1].Val.Sign() > 0
+	case "app":
+		return t.Name == "pow" || t.Name == "gcd" || len(t.Name) > 2 && (t.Name[:2] == "X_" || t.Name[:2] == "Y_")
+	case "ite":
+		return p.structNonNeg(t.Args[1], depth+1) && p.structNonNeg(t.Args[2], depth+1)
+	case "+", "*":
+		for _, a := range t.Args {
+			if !p.structNonNeg(a, depth+1) {
+				return false
+			}
+		}
+		return true
+	}
+	return false
 }
 
 func (p *pathRun) markNonNeg(t *smt.Term) {
@@ -243,6 +274,23 @@ func (p *pathRun) bigExp(fr *frame, recv value, x, y, m bigval) value {
 		mZero = p.fork(c.Eq(mt, c.IntC64(0)), "Exp zero modulus")
 	}
 	if mZero {
+		if y.c == nil && x.c != nil && x.c.Cmp(big.NewInt(2)) == 0 {
+			// 2^y for a symbolic machine-integer y (MustGetRandomInt: y = BitLen of the bound):
+			// an uninterpreted function with the monotonicity thresholds and, where y is the bit
+			// length of a value on this path, the defining inequalities 2^(y-1) <= |b| < 2^y
+			out := c.App("pow2", smt.Int, yt)
+			as := []*smt.Term{c.Implies(c.Le(yt, c.IntC64(0)), c.Eq(out, c.IntC64(1))), c.Ge(out, c.IntC64(1))}
+			for _, k := range bitLenThresholds {
+				as = append(as, c.Eq(c.Ge(yt, c.IntC64(int64(k))), c.Ge(out, c.IntC(pow2(uint(k))))))
+			}
+			for _, bl := range p.bitLens {
+				as = append(as, c.Implies(c.And(c.Eq(yt, bl[1]), c.Gt(bl[0], c.IntC64(0))),
+					c.And(c.Gt(out, bl[0]), c.Ge(c.Mul(c.IntC64(2), bl[0]), out))))
+			}
+			p.axiom("pow2-thresholds", c.And(as...))
+			p.markNonNeg(out)
+			return p.setBig(fr, recv, p.mkBig(out))
+		}
 		if y.c == nil {
 			panic(unsupported("Exp with symbolic exponent and no modulus"))
 		}
